@@ -303,7 +303,9 @@ func c09Apply(r *mon.Run, key *world.Key, h *c09hist, wi int, seq []updSpec, sha
 	w := cloneWitnessState(h.wit[wi])
 	abs := absWitness{index: wi, time: h.rev.Accs[wi].Time, revokedAt: h.revokedAt[wi]}
 	accTime := func(i int) int64 { return h.rev.Accs[i].Time }
-	desc := func() string { return fmt.Sprintf("%s | witness@%d revokedAt=%d | seq=%v shared=%v", h.desc, wi, h.revokedAt[wi], seq, shared) }
+	desc := func() string {
+		return fmt.Sprintf("%s | witness@%d revokedAt=%d | seq=%v shared=%v", h.desc, wi, h.revokedAt[wi], seq, shared)
+	}
 	fail := func(sig, msg string, step int) {
 		r.Violation(sig, msg+" ["+desc()+fmt.Sprintf(" step %d]", step), map[string]any{"history": h.desc, "witness_issued_at": wi, "revoked_at": h.revokedAt[wi],
 			"sequence": fmt.Sprint(seq), "step": step, "shared_objects": shared, "witness_e": dumpInt(h.wit[wi].E)})
